@@ -26,6 +26,12 @@ CMayLearn(s, warm) == s >= warm
 CReturnMatches(ret, start, ex) == ret = start + ex
 (* stop once the requested number of episodes has finished *)
 CMayContinue(done, limit) == limit = 0 \/ done < limit
+(* C13, loop clause: `a` (1-based index) is a maximiser of the row of action values `row`
+   (any totally ordered integers: small values in the design model, float32 ordinals - device D4 -
+   in recorded runs).  Used for the action that is EXECUTED: the row is that of the routine's
+   current estimate at the observation the environment returned last, at execution time. *)
+CIsMaximiser(row, a) == a \in 1..Len(row) /\ \A j \in 1..Len(row) : row[j] <= row[a]
+CMaximisers(row) == {a \in 1..Len(row) : CIsMaximiser(row, a)}
 (* C10 on float32 ordinals (device D4): lo - k <= a <= hi + k in units of ulp *)
 CInBounds(a, lo, hi, k) == \A d \in 1..Len(a) : lo[d] - k <= a[d] /\ a[d] <= hi[d] + k
 =============================================================================
